@@ -437,9 +437,9 @@ def _make_expect(case, root, f, a, did_send, cur_replaced, cur_removed, any_send
     if any(x[1] != 'cur' for x in muts) or len(muts) > 1:
         return None
     if case.get('scope'):
-        # with scope=True only the send(True) rule on an unreplaced node is checked (the scope helpers, e.g. for the
-        # first iterator of a comprehension, are not modelled and deliberately do not walk a replacement's children)
-        scope_ok = did_send is True and not cur_replaced
+        # with scope=True only the send(True) rule is checked (what is walked without it depends on the scope rules,
+        # which the oracle does not know); this includes the first iterator of a comprehension, yielded by walk_Comp
+        scope_ok = did_send is True
     else:
         scope_ok = True
     all_ = case.get('all', 'F')
@@ -467,7 +467,8 @@ def _make_expect(case, root, f, a, did_send, cur_replaced, cur_removed, any_send
     full = (did_send is True) or recurse           # whole subtree, or first level only (walk root with recurse=False)
     if not full:
         desc = [c for c in (_doc_children(na)[::-1] if back else _doc_children(na)) if vis_of(c, all_)]
-    return {'kind': 'children', 'want': desc, 'i': 0, 'replaced': cur_replaced, 'sent': did_send, 'f': f}
+    return {'kind': 'children', 'want': desc, 'i': 0, 'replaced': cur_replaced, 'sent': did_send, 'f': f,
+            'cls': 'scope-children-not-walked' if case.get('scope') and cur_replaced else None}
 
 
 def _post_vis(a, all_, back):
